@@ -4,7 +4,7 @@
    interleaving of client and actor transitions, including abandoned requests. *)
 From Coq Require Import ZArith List Bool.
 Import ListNotations.
-Require Import TC.Server.Actor TC.Server.Linear TC.Limiter.Bucket TC.Limiter.BurstExact.
+Require Import TC.Server.Actor TC.Server.Linear TC.Limiter.Bucket TC.Limiter.KeyStep TC.Limiter.BurstExact.
 
 (* every response a client has received (and every response waiting in a reply slot) equals the
    answer its request gets when the processed requests are applied ONE AT A TIME to a single
@@ -49,3 +49,15 @@ Theorem C09_burst_exact :
   Z.of_nat (length (filter (fun d => d) (bdecide E B (full E B t) (repeat (1%Z, t) n)))) = Z.min (Z.of_nat n) B.
 Proof. exact burst_exact. Qed.
 Print Assumptions C09_burst_exact.
+
+(* KNOWN FINDING (stamp-disorder): the clause above needs the requests to be served in timestamp order.
+   The transports stamp a request before queueing it; two simultaneous requests can be queued in the
+   opposite order of their stamps, and then the GCRA step denies the later-served one while a token is
+   left (observed on the real server: findings/F10-stamp-disorder.json). *)
+Theorem C09_refuted_by_stamp_disorder :
+  exists E B t d, (1 <= E)%Z /\ (0 < d)%Z /\
+    let r1 := kstep E B None 1 (t + d) in
+    let r2 := kstep E B (fst r1) 1 t in
+    allowed (snd r1) = true /\ remaining (snd r1) = 1%Z /\ allowed (snd r2) = false /\ retry_after (snd r2) = d.
+Proof. exact burst_short_under_stamp_disorder. Qed.
+Print Assumptions C09_refuted_by_stamp_disorder.
